@@ -28,6 +28,10 @@ pub struct Case {
     pub reconnect: bool,
     pub fork_seed: u64,
     pub after: Vec<Step>,
+    /// right before the switch: set_scripts(partial) of one more script (rewinds the filter cursor while the other
+    /// scripts stay ahead), then a few rounds of sync, so that the switch meets records computed for a subset of the scripts
+    #[serde(default)]
+    pub late_partial: Option<(RegSpec, u8)>,
 }
 
 pub struct C04;
@@ -38,7 +42,7 @@ impl Property for C04 {
 
     fn cases(tier: Tier) -> u32 {
         match tier {
-            Tier::Quick => 1200,
+            Tier::Quick => 10_000,
             Tier::Thorough => 25_000,
         }
     }
@@ -59,16 +63,24 @@ impl Property for C04 {
             chain_params(maxlen),
             net_params(),
             prop::collection::vec(reg_spec(), 1..3),
-            prop::collection::vec(step_strategy(false), 0..20),
+            // one history in three has user actions before the switch (set_scripts rewinds the filter cursor: the pending
+            // records then cover a subset of the scripts)
+            prop_oneof![2 => prop::collection::vec(step_strategy(false), 0..20), 1 => prop::collection::vec(step_strategy(true), 0..20)],
             prop::bool::weighted(0.6),
             1u8..30,
             1u8..8,
             prop::bool::weighted(0.3),
             prop::bool::weighted(0.3),
             any::<u64>(),
-            prop::collection::vec(step_strategy(false), 0..12),
+            (prop::collection::vec(step_strategy(false), 0..12), prop::option::weighted(0.3, (reg_spec(), 0u8..8))),
         )
-            .prop_map(|(mut chain, mut net, mut initial, before, full_sync_first, depth, extra, restart_before_switch, reconnect, fork_seed, after)| {
+            .prop_map(|(mut chain, mut net, mut initial, before, full_sync_first, depth, extra, restart_before_switch, reconnect, fork_seed, (after, mut late_partial))| {
+                if let Some((r, _)) = late_partial.as_mut() {
+                    if r.start_kind > 1 {
+                        r.start_kind = 0;
+                    }
+                    r.pos /= 4;
+                }
                 chain.density = chain.density.max(60);
                 // implicit precondition of the design (production: interval 2000 >> last_n 100): a fork never reaches
                 // below a check point a peer can hold, i.e. depth < interval; and long forks need last_n < interval
@@ -82,7 +94,7 @@ impl Property for C04 {
                     }
                     r.pos /= 4;
                 }
-                Case { chain, net, initial, before, full_sync_first, depth, extra, restart_before_switch, reconnect, fork_seed, after }
+                Case { chain, net, initial, before, full_sync_first, depth, extra, restart_before_switch, reconnect, fork_seed, after, late_partial }
             })
             .boxed()
     }
@@ -115,6 +127,18 @@ impl Property for C04 {
                     return Ok(());
                 }
                 return Err(Failure::new(format!("before-switch/{}", f.signature), f.message));
+            }
+        }
+        if let Some((spec, rounds)) = &case.late_partial {
+            obs.label("late-partial-set_scripts");
+            sim.set_scripts(1, std::slice::from_ref(spec));
+            if *rounds > 0 {
+                sim.w.drain(*rounds as usize, |_| false);
+            }
+            if let Some(l) = ended_by_ban(&sim.w) {
+                crate::verif_hooks::set_rng_seed(None);
+                obs.label(l);
+                return Ok(());
             }
         }
         // build branch B
